@@ -2,6 +2,7 @@ package main
 
 import (
 	"fmt"
+	"sync"
 
 	"verif/simrt"
 
@@ -85,12 +86,18 @@ func (r *Recorder) log() string {
 var curRec [simrt.MaxTasks + 1]*Recorder
 
 func recSlot() int {
-	c := simrt.Cur()
+	// a goroutine the library started on behalf of a caller logs into that caller's recorder
+	c := simrt.CurRoot()
 	if c < 0 {
 		return simrt.MaxTasks
 	}
 	return c
 }
+
+// recMu orders callbacks that the library might invoke from goroutines of its own (never
+// contended under the simulator: one task runs at a time; it only gives the race detector the
+// edge a user's own locking would give).
+var recMu sync.Mutex
 
 // plannedPanic is what a user function panics with when the fault plan says so.
 type plannedPanic struct{ fn string }
@@ -164,6 +171,8 @@ func reenter(r *Recorder) {
 
 func record(f, variant int, arg interface{}) (*Recorder, bool) {
 	simrt.CallbackSeam()
+	recMu.Lock()
+	defer recMu.Unlock()
 	r := curRec[recSlot()]
 	if r == nil {
 		panic(fmt.Sprintf("callback %s without recorder", funcNames[f]))
